@@ -21,6 +21,17 @@ CLAIMED = {
    technique='Coq proof by induction over the list with the (in_tie, rank) state + in-Coq differential correspondence'),
 }
 
+CLAIMED['C17'] = dict(
+   text="Coq theorems over exact rationals (forall n >= 1, forall s > 0 in Q, which contains every float): weights positive, "
+        "sum to one, equal steps, last = s * first (n >= 2), single agent = 1. Partial with respect to floating point: the "
+        "rounding of the double operations and of numpy.sum is not modelled; the correspondence converts the "
+        "implementation's doubles exactly to rationals and requires them within 2^-40 (relative to the largest weight) of "
+        "the model evaluated in Coq, over n in 1..200 and a dense skew grid; the evaluator used in Coq is proved equal to "
+        "the model. The weights handed to the RNG are checked to be that vector, unchanged.",
+   ref='DESIGN.md section 6 C17',
+   note=NOTE + "C17: float rounding and numpy.sum's reduction order are not modelled (tolerance 2^-40 of the largest weight).",
+   technique='Coq proof over Q (field/lra) + exact-rational differential correspondence')
+
 NOT_YET = {}
 
 def main():
